@@ -130,7 +130,8 @@ func (p *Proof) IsValid(public Public) bool {
 	}
 
 	N := public.N.Big()
-	if big.Jacobi(p.W, N) != -1 {
+	// the Jacobi symbol is defined for an odd modulus only (big.Jacobi panics otherwise)
+	if N.Bit(0) == 0 || big.Jacobi(p.W, N) != -1 {
 		return false
 	}
 
